@@ -129,6 +129,7 @@ def check_write(ctx, path, si, act, to, o):
 
 
 def run(ctx):
+    cd.apply_replay(ctx)
     binary = ctx.go_test_bin("common", harness="b_codecA_common")
     stats = {"reader_edges": 0, "writer_edges": 0, "paths": 0, "steps": 0, "trace_events": 0, "traces": 0}
     drift = []
@@ -197,7 +198,7 @@ def run(ctx):
         "traces_validated_against_impl": stats["paths"] + stats["traces"],
         "replayed_steps": stats["steps"], "reader_edges": stats["reader_edges"], "writer_edges": stats["writer_edges"],
         "trace_events": stats["trace_events"], "calls_replayed": sorted(ops_seen),
-        "constants": {"alphabet": [0, 1, 252, 253, 254, 255], "max_short_len": 5 if ctx.thorough else 2, "max_calls": 3},
+        "constants": {"alphabet": [0, 1, 252, 253, 254, 255], "max_short_len": 4 if ctx.thorough else 2, "max_calls": 3},
         "exhaustive": True,
     }, ["byte counts >= 2^24 are one model value HUGE; the harness tries 8 concrete counts for it (2^24 .. 2^64-1, including the "
         "ones that overflow off+n) and requires one common outcome",
